@@ -201,6 +201,42 @@ func runC19(c *h.Ctx) {
 	for i, p := range basePaths {
 		exposed[i] = exposesOrder(gen.FromAST(p.AST))
 	}
+	// COLD START: the very first executions of this process are concurrent -
+	// before any sequential call has run, so whatever the library sets up on
+	// first use (per Path, per zone, per process) is set up under contention.
+	// The results are judged against the baseline computed afterwards.
+	var coldOps []c19Op
+	{
+		coldPaths, _ := parsePool()
+		coldVars := newVars()
+		c19Concurrent.Store(true)
+		h.NoSharedAtomics = true
+		var wg sync.WaitGroup
+		start := make(chan struct{})
+		per := make([][]c19Op, cf.n)
+		for g := 0; g < cf.n; g++ {
+			wg.Add(1)
+			go func(g int) {
+				defer wg.Done()
+				<-start
+				for k := 0; k < len(c19Pool)*3; k++ {
+					pi := (k/3 + g%4) % len(c19Pool)
+					in := c19Input{pi: pi, di: 0, entry: []string{"query", "exists", "match"}[k%3], silent: false, tz: true}
+					per[g] = append(per[g], c19Op{client: g, in: in, out: c19Exec(coldPaths, docs, coldVars, in, exposed, cf.yield)})
+				}
+			}(g)
+		}
+		close(start)
+		wg.Wait()
+		c19Concurrent.Store(false)
+		h.NoSharedAtomics = false
+		for _, ops := range per {
+			coldOps = append(coldOps, ops...)
+		}
+		if h.CanonTyped(coldVars) != varsFP {
+			c.Violate("concurrent-differs", h.F("kind", "shared-input-modified", "phase", "cold-start"), "the shared variables map was modified", h.Case{Kind: "shared-input"})
+		}
+	}
 	// Isolated baseline on the separately parsed copies, sequentially.
 	baseline := map[string]string{}
 	var inputs []c19Input
@@ -224,6 +260,19 @@ func runC19(c *h.Ctx) {
 	if h.CanonTyped(vars) != varsFP {
 		c.Violate("concurrent-differs", h.F("kind", "shared-input-modified", "phase", "sequential"), "the variables map was modified by sequential calls: "+h.CanonTyped(vars)+" was "+varsFP, h.Case{Kind: "shared-input"})
 	}
+	for i, op := range coldOps {
+		in := op.in
+		// (the cold phase ran in the named zone: same offset, same results)
+		if want, ok := baseline[in.key()]; ok && want != op.out {
+			if i < 400 {
+				c.Violate("concurrent-differs", h.F("entry", in.entry, "kind", "result", "phase", "cold-start"), fmt.Sprintf("%s(%s) on doc %d among the first concurrent calls of the process returned %q; run alone it returns %q", in.entry, c19Pool[in.pi], in.di, op.out, want),
+					h.Case{Kind: "concurrent", Path: c19Pool[in.pi], Doc: c19Docs[in.di], Entry: in.entry, TZ: true, Vars: c19Vars})
+			}
+		} else {
+			c.Held("concurrent-differs")
+		}
+	}
+	c.Eval(len(coldOps))
 	baseFP := make([]string, len(basePaths))
 	for i, p := range basePaths {
 		baseFP[i] = p.String() + " | " + gen.FromAST(p.AST).Sexp()
@@ -239,6 +288,7 @@ func runC19(c *h.Ctx) {
 		// ... and a fresh variables map: the first uses of its members race too
 		vars := newVars()
 		c19Concurrent.Store(true)
+		h.NoSharedAtomics = true
 		var wg sync.WaitGroup
 		start := make(chan struct{})
 		t0 := time.Now()
@@ -279,6 +329,7 @@ func runC19(c *h.Ctx) {
 			c.Violate("concurrent-differs", h.F("kind", "parse"), fmt.Sprintf("%d concurrent Parse calls of pool texts failed", parseErrs.Load()), h.Case{Kind: "concurrent-parse"})
 		}
 		c19Concurrent.Store(false)
+		h.NoSharedAtomics = false
 		// history check with porcupine: stateless model "output = isolated baseline of the input"
 		var hist []porcupine.Operation
 		for _, gops := range ops {
